@@ -243,6 +243,7 @@ def run(chk):
     options_present(chk, eng)
     output_parsers(chk)
     timestamp_exactness(chk)
+    strict_payload_decode(chk, "C20")
     # "the wire form of an update contains every option the operation was created with": the options object a handler puts into its START is
     # built from the caller's configuration unchanged (callback timeouts, invoke target and tenant)
     from .handlers import explore
@@ -370,4 +371,35 @@ def timestamp_exactness(chk):
         chk.notes.append(f"native run for C20.timestamp.exact_millis: confirmed={r_.get('confirmed')}; affected among 50000 aligned instants of 2020-2030: {r_.get('affected_among_50000_aligned_instants_2020_2030')}; cases={str(r_.get('cases'))[:400]}")
     except Exception as e:  # noqa: BLE001
         chk.notes.append(f"native run for C20.timestamp.exact_millis failed: {e!r}")
+    return eng
+
+
+def strict_payload_decode(chk, prefix):
+    """the payload the backend delivers ('Result' of a step / context / callback / chained invoke, and the callback id) is decoded EXACTLY:
+    an empty string stays an empty string.  The normal form of the round-trip obligations identifies '' with absent (the encoder omits empty
+    optional strings), so a decoder that turns a delivered '' into None needs its own obligation: result() / the replayed value is the delivered text."""
+    eng = Engine(hooks=codec_hooks())
+    P = eng.program
+    for cname, extra in (("StepDetails", {}), ("ContextDetails", {}), ("CallbackDetails", {"CallbackId": "callback_id"}), ("ChainedInvokeDetails", {})):
+        cls = P.cls("lambda_service." + cname)
+        chk.function(f"lambda_service.{cname}.from_dict")
+        st = St()
+        res = fresh("str", "delivered_result")
+        ent = {"Result": (T, res)}
+        ids = {}
+        for wire_key, field in extra.items():
+            ids[field] = fresh("str", "delivered_" + field)
+            ent[wire_key] = (T, ids[field])
+        d = st.alloc("dict", {"__kind__": "dict", "open": False, "e": ent})
+        for k, back, s in eng.run(cls.find_method("from_dict"), [ClassRef(cls), d], st=st):
+            chk.paths += 1
+            ok = k == "val" and isinstance(back, Ref)
+            goal = z3.BoolVal(ok)
+            if ok:
+                b = s.get(back)
+                goal = z3.And(goal, z3.Not(is_none(b["result"])) if isinstance(b["result"], Opt) else z3.BoolVal(b["result"] is not None), ops.values_equal(s, strip_opt(b["result"]) if isinstance(b["result"], Opt) else b["result"], res))
+                for field, val in ids.items():
+                    goal = z3.And(goal, ops.values_equal(s, b[field], val))
+            chk.prove(f"{prefix}.decode.payload_exact.{cname}", s.pc, goal,
+                      desc=f"{cname}.from_dict: a delivered Result (any string, including the empty one) is the decoded result, unchanged" + ("; the callback id likewise" if extra else ""))
     return eng
